@@ -926,15 +926,31 @@ class Evaluator:
             v = self.expr(s.value, st, mod, fi, depth)
             st.effects = st.effects + (v,)
             return [st]
-        if isinstance(s, ast.Assign):
+        if isinstance(s, (ast.Assign, ast.AnnAssign)):
+            if isinstance(s, ast.AnnAssign) and s.value is None:
+                return [st]
             v = self.expr(s.value, st, mod, fi, depth)
-            for t in s.targets:
+            targets = s.targets if isinstance(s, ast.Assign) else [s.target]
+            alts = alternatives(v) if isinstance(v, Ite) else None
+            if alts is not None and 1 < len(alts) <= 6 and any(isinstance(leaf, Raises) for _, leaf in alts):
+                # a value computed by a helper that raises on some of its paths: those paths end here, the others go on
+                # one by one (with the helper's conditions as guards)
+                res_states: List[_State] = []
+                for g, leaf in alts:
+                    chosen = {t: pol for t, pol in norm_guards(g)}
+                    if any(eval_bool(t, chosen) not in (None, pol) for t, pol in norm_guards(st.guards)):
+                        continue
+                    if isinstance(leaf, Raises):
+                        outs.append(Outcome('raise', leaf.exc, st.guards + g, st.effects, st.asserts, s.lineno, dict(st.env), st.trace))
+                        continue
+                    nst = st.fork()
+                    nst.guards = nst.guards + g
+                    for t in targets:
+                        self.assign(t, leaf, nst, mod, fi, depth)
+                    res_states.append(nst)
+                return res_states
+            for t in targets:
                 self.assign(t, v, st, mod, fi, depth)
-            return [st]
-        if isinstance(s, ast.AnnAssign):
-            if s.value is not None:
-                v = self.expr(s.value, st, mod, fi, depth)
-                self.assign(s.target, v, st, mod, fi, depth)
             return [st]
         if isinstance(s, ast.AugAssign):
             cur = self.expr(s.target, st, mod, fi, depth)
@@ -1454,6 +1470,11 @@ class Evaluator:
                     pass
         if op in ('is', 'is not') and is_const(b, None) and isinstance(a, (New, ClassRef, FuncRef, Lam, Template, TupleT, EnumMember)):
             return Const(op == 'is not')
+        if op in ('is', 'is not') and is_const(b, None) and isinstance(a, Call) and isinstance(a.func, FuncRef):
+            # the result of a package function whose declared return type is a class (not Optional): never None
+            callee = self.callee(a.func)
+            if callee is not None and isinstance(callee.node.returns, (ast.Name, ast.Constant)) and self.ann_class(callee.node.returns, callee.module) is not None:
+                return Const(op == 'is not')
         if op in ('in', 'not in'):
             c = b.value if isinstance(b, GlobalVal) else b
             if isinstance(c, Call) and isinstance(c.func, Ext) and c.func.name in ('frozenset', 'set', 'tuple', 'list') and len(c.args) == 1 and isinstance(c.args[0], TupleT):
@@ -1744,7 +1765,7 @@ class Evaluator:
             return mk_ite(func.test, self.apply(func.a, args, kwargs, st, depth, star), self.apply(func.b, args, kwargs, st, depth, star))
         if isinstance(func, ClassRef):
             ci = self.m.classes.get(func.name)
-            if ci is not None and not star and (ci.is_attrs or any(c.is_attrs for c in ci.mro())):
+            if ci is not None and not star and (ci.is_record or any(c.is_record for c in ci.mro())):
                 self.resolved_calls += 1
                 return self.construct(ci, args, kwargs)
             self.resolved_calls += 1
@@ -2054,6 +2075,42 @@ def norm_guard(g: Guard) -> Guard:
 
 def norm_guards(gs: Tuple[Guard, ...]) -> Tuple[Guard, ...]:
     return tuple(norm_guard(g) for g in gs)
+
+
+def reduce_guards(gs: Tuple[Guard, ...]) -> Tuple[Guard, ...]:
+    """flat_guards, plus unit propagation: facts already on the path simplify later compound guards
+    (not (a and b and c) with a, b known true leaves not c; (a or b) with a known false leaves b)"""
+    known: Dict[Term, bool] = {}
+    out: List[Guard] = []
+
+    def add(t: Term, pol: bool):
+        while isinstance(t, Op) and t.op == 'not' and len(t.args) == 1:
+            t, pol = t.args[0], not pol
+        v = eval_bool(t, known)
+        if v is not None and not isinstance(t, Const):
+            if v == pol:
+                return   # already implied
+        if isinstance(t, Op) and len(t.args) > 1 and ((t.op == 'and' and pol) or (t.op == 'or' and not pol)):
+            # a conjunction of plain tests (`x.is_value and x.is_literal and x.value is True`) is one test for the rules;
+            # one that mixes in negations or other compounds is a list of separate facts
+            if any(isinstance(a, Op) and a.op in ('not', 'and', 'or') for a in t.args):
+                for a in t.args:
+                    add(a, pol)
+                return
+        if isinstance(t, Op) and len(t.args) > 1 and ((t.op == 'and' and not pol) or (t.op == 'or' and pol)):
+            # drop the parts whose value is known and cannot decide the whole
+            neutral = (t.op == 'and')   # in `not (a and b)`, a known-true part is neutral; in (a or b), a known-false part
+            rest = [a for a in t.args if eval_bool(a, known) is not neutral]
+            if len(rest) == 1:
+                add(rest[0], pol)
+                return
+            if len(rest) < len(t.args) and rest:
+                t = Op(t.op, tuple(rest))
+        known[t] = pol
+        out.append((t, pol))
+    for t, pol in gs:
+        add(t, pol)
+    return tuple(out)
 
 
 def flat_guards(gs: Tuple[Guard, ...]) -> Tuple[Guard, ...]:
